@@ -119,6 +119,23 @@ T8 = [
  ("C19","m1","transmit/demo_c19_m1_test.go",{"C19":"span_not_handled_exactly_once","C26":"event_sent_to_wrong_destination","C23":"accepted_event_not_accounted_once"},"missed, then caught after strengthening","Network.HoneycombAPI (World B) and the events' API hosts (World C) are written with a trailing slash in a quarter / a fifth of the plans; the simulated Honeycomb only serves /1/batch/<dataset>","C19-m6"),
  ("C26","m2","transmit/demo_c26_m2_test.go",{"C26":"batch_dispatched_late"},"caught","","C26-m7"),
 ]
+T9 = [
+ # wave 9 (/tmp/mutout9), same prompts as wave 8 for eight other properties.
+ # Not stored (repeats): C05 m1 (= C02-m1), C07 m1 (= C05-m4), C07 m2 (= C07-m1), C17 m2 (= C17-m2), C27 m1 (= C27-m2).
+ ("C05","m2","collect/demo_m2_test.go",{"C05":"dry_run_kept_field_missing"},"missed, then caught after strengthening","World A reloads now tell the listeners the digests of the content in force, as the file-backed config does (MockConfig.Reload passes empty strings), so that reverting a change brings the earlier digest back; C05's plans switch dry run off and back on (the generator had a switch for this that nothing read)","C05-m5"),
+ ("C12","m1","sample/demo_m1_test.go",{"C12":"different_definitions_share_state","C13":"throughput_goal"},"caught","","C12-m5"),
+ ("C12","m2","collect/demo_m2_test.go",{"C12":"identical_definitions_not_shared","C13":"throughput_goal"},"missed, then caught after strengthening","new schedule: one worker is held at the start of a decision (tracer seam) while the main configuration changes twice and another worker decides a trace in between; the held worker then goes on and decides one more trace","C12-m6"),
+ ("C13","m1","sample/demo_c13m1_test.go",{"C13":"throughput_goal","C12":"different_definitions_share_state"},"caught","","C13-m4"),
+ ("C13","m2","sample/demo_c13m2_test.go",{"C13":"throughput_goal"},"caught","","C13-m5"),
+ ("C17","m1","internal/peer/demo_m1_test.go",{"C17":"owner_not_a_peer","C18":"peer_entry_expired_early"},"caught","","C17-m7"),
+ ("C23","m1","route/demo_c23_m1_test.go",{"C23":"error_status_but_events_processed"},"missed, then caught after strengthening","OTLP requests with one resource entry per span; EnvironmentCacheTTL 0 in two thirds of the plans (nothing is served from the cache, not even within one request); a lookup service of which every second answer is an error","C23-m7"),
+ ("C23","m2","route/demo_c23_m2_test.go",{"C23":"refused_event_processed"},"missed, then caught after strengthening","two collector workers in some of the plans that stall worker 0: within one request some events meet a full queue and later ones a free one","C23-m8"),
+ ("C27","m2","config/demo_m2_test.go",{"C27":"acceptable_change_not_applied"},"caught","","C27-m5"),
+ ("C36","m1","internal/configwatcher/demo_test.go",{"C36":"shutdown_panicked"},"missed, then caught after strengthening (patch rebased onto fix 2819407, which the author's patch contained as its first half)","General.ConfigReloadInterval 0 in a third of the shutdown plans; a panic while the components are stopped is a violation of C36 (it was harness trouble: the panic happened on a goroutine of the harness and ended the process)","C36-m4"),
+ ("C36","m2","internal/health/demo_test.go",{"C30":"reporting_subsystem_reported_dead"},"caught (by C30: the statement of C36 does not speak of readiness)","","C36-m5"),
+]
+if os.environ.get("WAVE") == "9":
+    T = T9
 if os.environ.get("WAVE") == "8":
     T = T8
 if os.environ.get("WAVE") == "3":
